@@ -784,5 +784,74 @@ func IndexOp(layers []int, script Script, dead bool) string {
 	return fmt.Sprintf("index %s %s %s", LayersString(layers), script.String(), d)
 }
 
+// StoredSummary is the canonical summary of the report stored for the manifest
+// ("-" if none), read without going through the hook.
+func (w *World) StoredSummary(m []int) string {
+	if sr, ok := w.Store.StoredReport(ManifestDigest(m).String()); ok {
+		return w.summary(sr)
+	}
+	return "-"
+}
+
+// ScannedBy lists which of the configured scanners the manifest is recorded as
+// scanned by, as a 0/1 string in Keys() order.
+func (w *World) ScannedBy(m []int) string {
+	var b strings.Builder
+	for _, k := range w.Keys() {
+		b.WriteString(b01(w.Store.HasManifestScanned(ManifestDigest(m).String(), k)))
+	}
+	return b.String()
+}
+
+// LayerState is the scanned marks and stored artifacts of one layer under the
+// configured scanners.
+func (w *World) LayerState(l int) string {
+	var b strings.Builder
+	for _, k := range w.Keys() {
+		b.WriteString(b01(w.Store.HasLayerScanned(LayerDigest(l).String(), k)))
+		b.WriteString("[" + strings.Join(w.Store.ArtifactNames(LayerDigest(l).String(), k), " ") + "]")
+	}
+	return b.String()
+}
+
+// Delete runs Libindex.DeleteManifests on the manifests made of the given
+// layer lists and returns the canonical answer: what was reported as deleted
+// and the row counts of the store afterwards.
+func (w *World) Delete(ms [][]int) string {
+	ds := make([]claircore.Digest, len(ms))
+	names := map[string]string{}
+	for i, m := range ms {
+		ds[i] = ManifestDigest(m)
+		names[ds[i].String()] = LayersString(m)
+	}
+	got, err := w.Lib.DeleteManifests(context.Background(), ds...)
+	if err != nil {
+		return "err"
+	}
+	out := make([]string, len(got))
+	for i, d := range got {
+		n, ok := names[d.String()]
+		if !ok {
+			n = "?"
+		}
+		out[i] = n
+	}
+	del := "-"
+	if len(out) > 0 {
+		del = strings.Join(out, ";")
+	}
+	mf, sl, ar := w.Store.Counts()
+	return fmt.Sprintf("del=%s mf=%d sl=%d ar=%d", del, mf, sl, ar)
+}
+
+// DeleteOp renders the operation line.
+func DeleteOp(ms [][]int) string {
+	p := make([]string, len(ms))
+	for i, m := range ms {
+		p[i] = LayersString(m)
+	}
+	return "delete " + strings.Join(p, ";")
+}
+
 // ConfigOp renders the operation line.
 func ConfigOp(cfg Config) string { return "config " + cfg.String() }
